@@ -22,7 +22,8 @@ ClauseName == <<"message outside the alphabet", "cache entry is not the import o
 Clause(n, b) == IF b THEN TRUE ELSE ~TLCSet(NT + t, n)
 
 Ev == Traces[t][l]
-TInit == /\ desc = {} /\ cache = [k \in AllKeys |-> Undef] /\ cbs = {} /\ waiting = {} /\ now = 0
+TInit == /\ variant = "a" /\ other = NoOther
+         /\ desc = {} /\ cache = [k \in AllKeys |-> Undef] /\ cbs = {} /\ waiting = {} /\ now = 0
          /\ last = [kind |-> "init"]
          /\ t \in 1 .. NT /\ l = 1
 
@@ -77,13 +78,13 @@ TExpect == /\ Expect(<<Ev.rk[1], Ev.rk[2]>>)
 TTick == /\ Clause(14, Ev.now >= now /\ Ev.now <= MaxNow)
          /\ now' = Ev.now
          /\ last' = [kind |-> "tick"]
-         /\ UNCHANGED <<desc, cache, cbs, waiting>>
+         /\ UNCHANGED <<variant, other, desc, cache, cbs, waiting>>
 
 (* (re)description: any description over the universe *)
 TDescribe == /\ Clause(13, ToSet(Ev.desc) \subseteq AllKeys)
-             /\ desc' = ToSet(Ev.desc)
+             /\ desc' = ToSet(Ev.desc) /\ variant' = Ev.variant
              /\ last' = [kind |-> "describe"]
-             /\ UNCHANGED <<cache, cbs, waiting, now>>
+             /\ UNCHANGED <<other, cache, cbs, waiting, now>>
              /\ Clause(4, ObsKeysOK(Ev.cache) /\ cache' = ObsCache(Ev.cache))
              /\ Clause(16, /\ {<<x[1], x[2]>> : x \in ToSet(Ev.idmap)} = NameMaps(desc')
                            /\ {<<x[1], x[2]>> : x \in ToSet(Ev.intmap)} = NameMaps(desc'))
@@ -105,6 +106,11 @@ TStep ==
      \/ Ev.ev = "idle" /\ Idle /\ Clause(4, ObsKeysOK(Ev.cache) /\ cache' = ObsCache(Ev.cache))
                        /\ Clause(6, cbs' = ToSet(Ev.cbs))
      \/ Ev.ev = "descr" /\ TDescribe
+     \/ Ev.ev = "other" /\ other' = [desc |-> ToSet(Ev.desc), variant |-> Ev.variant] /\ last' = [kind |-> "other"]
+                        /\ UNCHANGED <<variant, desc, cache, cbs, waiting, now>>
+                        /\ Clause(4, ObsKeysOK(Ev.cache) /\ cache' = ObsCache(Ev.cache))
+                        /\ Clause(16, /\ {<<x[1], x[2]>> : x \in ToSet(Ev.idmap)} = NameMaps(desc)
+                                      /\ {<<x[1], x[2]>> : x \in ToSet(Ev.intmap)} = NameMaps(desc))
      \/ Ev.ev = "e2e" /\ TE2E
 
 TSpec == TInit /\ [][TStep]_<<vars, t, l>>
